@@ -392,12 +392,71 @@ func IntAdd(a, b Term) Term { return app(SInt, "+", a, b) }
 // Script: an ordered list of declarations / definitions / assumptions.
 
 type Script struct {
-	lines []string
-	names map[string]bool
-	ctr   int
+	lines     []string
+	guards    []string // per line: name of the path condition under which an assumption was made ("" = always relevant)
+	names     map[string]bool
+	ctr       int
+	pcParents map[string][]string
 }
 
-func NewScript() *Script { return &Script{names: map[string]bool{}} }
+func NewScript() *Script { return &Script{names: map[string]bool{}, pcParents: map[string][]string{}} }
+
+func (s *Script) add(line, guard string) {
+	s.lines = append(s.lines, line)
+	s.guards = append(s.guards, guard)
+}
+
+// DefinePC names a path condition and records the path conditions it was built from.
+func (s *Script) DefinePC(t Term, parents []string) Term {
+	if t.S == "true" || t.S == "false" {
+		return t
+	}
+	if _, isPC := s.pcParents[t.S]; isPC {
+		return t
+	}
+	n := s.freshName("pc")
+	s.add(fmt.Sprintf("(define-fun %s () Bool %s)", n, t.S), "")
+	s.pcParents[n] = parents
+	return Term{n, SBool}
+}
+
+var pcNameRe = regexp.MustCompile(`pc![0-9]+`)
+
+// Ancestors returns the set of named path conditions a term depends on, transitively.
+func (s *Script) Ancestors(t Term) map[string]bool {
+	out := map[string]bool{}
+	var visit func(n string)
+	visit = func(n string) {
+		if out[n] {
+			return
+		}
+		out[n] = true
+		for _, p := range s.pcParents[n] {
+			for _, m := range pcNameRe.FindAllString(p, -1) {
+				visit(m)
+			}
+		}
+	}
+	for _, m := range pcNameRe.FindAllString(t.S, -1) {
+		visit(m)
+	}
+	return out
+}
+
+// AssertUnder records an assumption made on the paths described by pc.
+func (s *Script) AssertUnder(pc Term, t Term) {
+	if t.S == "true" || pc.S == "false" {
+		return
+	}
+	guard := ""
+	if ms := pcNameRe.FindAllString(pc.S, -1); len(ms) > 0 {
+		guard = ms[len(ms)-1]
+		if _, ok := s.pcParents[pc.S]; ok {
+			guard = pc.S
+		}
+	}
+	s.add(fmt.Sprintf("(assert %s)", Implies(pc, t).S), guard)
+}
 
 var identSan = regexp.MustCompile(`[^A-Za-z0-9_.$]`)
 
@@ -411,7 +470,7 @@ func (s *Script) freshName(hint string) string {
 // Declare introduces an unconstrained constant.
 func (s *Script) Declare(hint string, sort Sort) Term {
 	n := s.freshName(hint)
-	s.lines = append(s.lines, fmt.Sprintf("(declare-const %s %s)", n, sort))
+	s.add(fmt.Sprintf("(declare-const %s %s)", n, sort), "")
 	return Term{n, sort}
 }
 
@@ -419,7 +478,7 @@ func (s *Script) Declare(hint string, sort Sort) Term {
 func (s *Script) DeclareNamed(name string, sort Sort) Term {
 	if !s.names[name] {
 		s.names[name] = true
-		s.lines = append(s.lines, fmt.Sprintf("(declare-const %s %s)", name, sort))
+		s.add(fmt.Sprintf("(declare-const %s %s)", name, sort), "")
 	}
 	return Term{name, sort}
 }
@@ -433,7 +492,7 @@ func (s *Script) DeclareFun(name string, args []Sort, res Sort) {
 	for _, a := range args {
 		as = append(as, string(a))
 	}
-	s.lines = append(s.lines, fmt.Sprintf("(declare-fun %s (%s) %s)", name, strings.Join(as, " "), res))
+	s.add(fmt.Sprintf("(declare-fun %s (%s) %s)", name, strings.Join(as, " "), res), "")
 }
 
 // Define names a term (kept small: trivial terms are returned unchanged).
@@ -442,7 +501,7 @@ func (s *Script) Define(hint string, t Term) Term {
 		return t
 	}
 	n := s.freshName(hint)
-	s.lines = append(s.lines, fmt.Sprintf("(define-fun %s () %s %s)", n, t.Sort, t.S))
+	s.add(fmt.Sprintf("(define-fun %s () %s %s)", n, t.Sort, t.S), "")
 	return Term{n, t.Sort}
 }
 
@@ -450,10 +509,10 @@ func (s *Script) Assert(t Term) {
 	if t.S == "true" {
 		return
 	}
-	s.lines = append(s.lines, fmt.Sprintf("(assert %s)", t.S))
+	s.add(fmt.Sprintf("(assert %s)", t.S), "")
 }
 
-func (s *Script) Raw(line string) { s.lines = append(s.lines, line) }
+func (s *Script) Raw(line string) { s.add(line, "") }
 
 func (s *Script) Mark() int { return len(s.lines) }
 
@@ -478,6 +537,14 @@ var solvers = []solverSpec{
 	{"z3-new-5.1.0", func(f string, t int) []string {
 		return []string{"z3-new", fmt.Sprintf("-T:%d", t), f}
 	}, nil},
+	{"z3-new-5.1.0-mbqi", func(f string, t int) []string {
+		return []string{"z3-new", "smt.ematching=false", fmt.Sprintf("-T:%d", t), f}
+	}, func(q string) string {
+		if !strings.Contains(q, "(forall ") {
+			return "" // only useful on quantified queries
+		}
+		return q
+	}},
 	{"z3-4.8.12", func(f string, t int) []string {
 		return []string{"/usr/bin/z3", fmt.Sprintf("-T:%d", t), f}
 	}, nil},
@@ -611,6 +678,19 @@ func SolveEach(query string, timeoutS int) []SolverResult {
 	}
 	for i := 0; i < n; i++ {
 		out = append(out, <-ch)
+	}
+	return out
+}
+
+// pcDisjuncts returns the alternatives of a path condition that was defined as a disjunction.
+func (s *Script) pcDisjuncts(pc Term) []Term {
+	ps, ok := s.pcParents[pc.S]
+	if !ok || len(ps) < 2 {
+		return nil
+	}
+	var out []Term
+	for _, p := range ps {
+		out = append(out, Term{p, SBool})
 	}
 	return out
 }
